@@ -342,8 +342,9 @@ class GizaCategory(Generic[_I]):
             elif obj.ref is not None:
                 refs_set.add(obj.ref)
 
-        # Avoid substituting if this is a base node.
-        if do_substitutions and obj.ref and not obj.ref.startswith("_"):
+        # Avoid substituting if this is a base node. An entry without a ref (a step may have
+        # none) is rendered like any other
+        if do_substitutions and not (obj.ref or "").startswith("_"):
             changes = {}
             replacements = obj.replacement or {}
 
